@@ -2,6 +2,7 @@
 import Tetl.Proto
 import Tetl.C18.Model
 import Tetl.C18.Spec
+import Tetl.C18.Gen
 namespace Tetl.C18.Driver
 open Tetl Tetl.Proto
 
@@ -31,6 +32,19 @@ def ctypeM (f : String) (c : Int) : Option String :=
   | "ispunct" => some (fmtBool (ispunct c)) | "isspace" => some (fmtBool (isspace c))
   | "isupper" => some (fmtBool (isupper c)) | "isxdigit" => some (fmtBool (isxdigit c))
   | "tolower" => some (toString (tolower c)) | "toupper" => some (toString (toupper c))
+  | _ => none
+
+/-- the model GENERATED from the current headers by gen/translate.py (tie T); it must agree with the hand model -/
+def ctypeG (f : String) (c : Int) : Option String :=
+  let b (x : Int) : String := fmtBool (x != 0)
+  match f with
+  | "isalnum" => some (b (Gen.isalnum c)) | "isalpha" => some (b (Gen.isalpha c))
+  | "isblank" => some (b (Gen.isblank c)) | "iscntrl" => some (b (Gen.iscntrl c))
+  | "isdigit" => some (b (Gen.isdigit c)) | "isgraph" => some (b (Gen.isgraph c))
+  | "islower" => some (b (Gen.islower c)) | "isprint" => some (b (Gen.isprint c))
+  | "ispunct" => some (b (Gen.ispunct c)) | "isspace" => some (b (Gen.isspace c))
+  | "isupper" => some (b (Gen.isupper c)) | "isxdigit" => some (b (Gen.isxdigit c))
+  | "tolower" => some (toString (Gen.tolower c)) | "toupper" => some (toString (Gen.toupper c))
   | _ => none
 
 def ctypeS (f : String) (c : Int) : Option String :=
@@ -76,9 +90,9 @@ def step (_ : Unit) (l : Line) : Unit × String :=
   | "ctype" =>
     match l.str? "f", l.int? "c" with
     | some f, some c =>
-      match ctypeM f c, ctypeS f c with
-      | some m, some s => out m s
-      | _, _ => bad
+      match ctypeM f c, ctypeS f c, ctypeG f c with
+      | some m, some s, some g => if g == m then out m s else out s!"{m}!gen={g}" s
+      | _, _, _ => bad
     | _, _ => bad
   | "wctype" =>
     match l.str? "f", l.nat? "c" with
